@@ -73,7 +73,10 @@ CLAIMS = {
         "stream whole; sent bytes are handed over unmodified; default timeouts are finite. MEASURED on real loopback sockets (IPv4 and IPv6), not "
         "proved: that the OS honours the timeouts — wall clock of Valve and GameSpy 2 queries against servers that fall silent at every point of the "
         "exchange, of the Minecraft Java query against a TCP peer that never writes, and of a TCP read against a peer that writes part of a reply and "
-        "then stalls with the connection open, each vs (model's count of timed-out steps) x timeout + slack; byte-exact round trips for payloads "
+        "then stalls with the connection open, of the Eco query through the HTTP client against a peer that is mute / stalls in the head / in the body / "
+        "refuses, and of EVERY UDP family (Quake, GameSpy 1/2/3, Unreal 2, Bedrock, Valve) against a loopback server that replays a valid exchange up to "
+        "a cut point — result and requests seen compared with the model of the cut exchange —, each vs (model's count of timed-out steps) x READ timeout "
+        "+ slack with write / connect timeouts ten times longer; byte-exact round trips for payloads "
         "0..65507 (UDP) / 100 000 (TCP); refused connections. The runtime behaviour a model cannot exhibit (kernel timers, scheduling) is exactly the "
         "measured part."),
   note=TB + "OS socket timeouts, scheduling and the kernel's IPv4/IPv6 stacks are outside any model; the HTTP client (ureq agent: Eco) is measured by the Eco family's loopback HTTP runs only for fidelity, its timeouts are not modelled.",
